@@ -170,6 +170,24 @@ func runMut(c MutCase) (res ev.Result) {
 	smf.ReadFrom(bytes.NewReader(interruptedFile))
 	r2, v2 := generic(c.Input)
 	smf.ReadFrom(bytes.NewReader(completeFile))
+	// ... and neither may what the caller does with a value it got: the first result is kept as
+	// a copy, then every channel message of it is overwritten in place
+	if r1.err == nil && r1.s != nil {
+		keep := smf.New()
+		for _, tr := range r1.s.Tracks {
+			var cp smf.Track
+			for _, e := range tr {
+				cp = append(cp, smf.Event{Delta: e.Delta, Message: append(smf.Message{}, e.Message...)})
+				if len(e.Message) > 0 && e.Message[0] < 0xF0 { // what transposing or re-channelling does
+					for k := range e.Message {
+						e.Message[k] ^= 0x15
+					}
+				}
+			}
+			keep.Tracks = append(keep.Tracks, cp)
+		}
+		r1.s = keep
+	}
 	r3, v3 := generic(c.Input)
 	if v2 != "" || v3 != "" {
 		res.Violation = "reading the same bytes again: " + v2 + v3
@@ -310,7 +328,7 @@ func genMut(t *rapid.T) MutCase {
 }
 
 var mutants = ev.NewCheck("C05", "mutations",
-	"rapid: random byte strings, valid header + random body, and grammar-aware mutations of valid files: byte flips, status/data class swaps, inserted stray data or system bytes, deleted bytes, spliced hostile sequences (declared lengths 2^25..2^28-1 with the payload absent, early/duplicated end-of-track, chunk headers), header fields (ntrks 0 / too large, format >= 3, arbitrary SMPTE bytes, division 0), removed end-of-track, damaged chunk magic, chunk lengths, truncation; oracle: watchdog, no panic, allocation envelope, (value|error), no empty message in a returned value, and the same bytes read again after an interrupted and after a complete read of other files give the same outcome (no state leaks between reads); non-trivial = input starts with MThd and is >= 22 bytes; distinct by input bytes; operator histogram in classes",
+	"rapid: random byte strings, valid header + random body, and grammar-aware mutations of valid files: byte flips, status/data class swaps, inserted stray data or system bytes, deleted bytes, spliced hostile sequences (declared lengths 2^25..2^28-1 with the payload absent, early/duplicated end-of-track, chunk headers), header fields (ntrks 0 / too large, format >= 3, arbitrary SMPTE bytes, division 0), removed end-of-track, damaged chunk magic, chunk lengths, truncation; oracle: watchdog, no panic, allocation envelope, (value|error), no empty message in a returned value, and the same bytes read again after an interrupted and after a complete read of other files give the same outcome, also after the caller has overwritten every channel message of the first result in place (no state leaks between reads, results are the caller's); non-trivial = input starts with MThd and is >= 22 bytes; distinct by input bytes; operator histogram in classes",
 	genMut, runMut)
 
 var boundary = ev.NewCheck("C05", "boundary-inputs",
